@@ -42,6 +42,16 @@ def run(report, db, tier):
     r5(report, db, cg, M, S)
     r6(report, db, cg, M, S)
     r8(report, db, cg, M, S)
+    # "reconnect-from-listener": an outgoing listener that disconnects or
+    # connects runs while _pop_packet is writing; the entry it is writing must
+    # be out of the queue already (C12's queue rule)
+    from ..common import borrow
+    from . import c12
+    borrow(report, 'R16.9', "a listener that disconnects or reconnects finds "
+           "a consistent queue: an entry leaves the queue before it is "
+           "written (C12's queue discipline)",
+           lambda rid, c: c.startswith('queue:'),
+           lambda sub: c12.r3(sub, db, cg, M))
     # reuse from inside a status handler: the handler must find the
     # connection closed (clause shared with C09's status arms)
     from .c09 import plain_status
